@@ -142,6 +142,19 @@ def run_groups(group_names, repo, scratch, tier, jobs=None, keep=False, only=Non
                 out["failed"].append({"obligation": ob, "engine": "kani", "message": "; ".join(real)[:1500], "source": h, "at": meta[h].get("fn", ""), "rendered": ""})
             else:
                 out["undecided"].append("%s: %s %s" % (ob, r["status"], "; ".join(fails)[:300]))
+        # counterexamples: re-run each failed harness with concrete playback (bounded time)
+        for f in out["failed"][:3]:
+            h = f["source"]
+            try:
+                pc = subprocess.run(cmd[:12] + ["-Z", "concrete-playback", "--concrete-playback=print", "--harness", h, "--output-format", "terse"],
+                                    cwd=tree, capture_output=True, text=True, env=env, timeout=900)
+                txt = pc.stdout
+                i = txt.find("Concrete playback unit test")
+                f["rendered"] = txt[i:i + 3000] if i >= 0 else "(no concrete playback produced)"
+                vals = re.findall(r"//\s*(-?[\w.]+)\s*\n\s*vec!\[([0-9, ]*)\]", f["rendered"])
+                f["counterexample"] = [{"value": v, "bytes": b} for v, b in vals]
+            except Exception as e:
+                f["rendered"] = "(concrete playback failed: %s)" % e
         out["inject_report"] = rep
         return out
     finally:
